@@ -22,9 +22,13 @@ assert os.path.realpath(os.path.dirname(conda_content_trust.__file__)).startswit
     "conda_content_trust was not imported from the repository working tree: " + conda_content_trust.__file__
 )
 
-from conda_content_trust import authentication, common, signing  # noqa: E402
+from . import gpgshim, proto  # noqa: E402
 
-from . import proto  # noqa: E402
+gpgshim.install()   # before root_signing is imported: its SSLIB_AVAILABLE flag is computed at import time
+
+from conda_content_trust import authentication, common, root_signing, signing  # noqa: E402
+
+assert root_signing.SSLIB_AVAILABLE, "GPG shim not picked up by root_signing"
 
 _SCRATCH = None
 
